@@ -168,4 +168,4 @@ def load_module(module_name: str) -> ModuleType:
     # Nothing worked
     except ModuleNotFoundError as err:
         logging.critical("Can not find module %s", module_name)
-        raise SystemExit from err
+        raise SystemExit(3) from err
